@@ -272,6 +272,10 @@ pub fn workloads(tier: Tier) -> Vec<Workload> {
             out.push(Workload { ty, ops: vec![WOp::W(0), WOp::F, WOp::W(1), WOp::W(0)], big, slice: (i, 16) });
         }
     }
+    // a record of more than 16 MiB (thorough: 70 MB) between two small ones
+    for (ty, big) in tier.pick(vec![(Ty::Polyline, 1_100_001usize)], vec![(Ty::Polyline, 1_100_001), (Ty::MultipointZ, 2_200_001)]) {
+        out.push(Workload { ty, ops: vec![WOp::W(1), WOp::W(0), WOp::W(1)], big, slice: (0, 1) });
+    }
     // thousands of records: 10001 writes, a finalize, one more write (thorough: also 20001 and a multi-vertex type)
     for (ty, n) in tier.pick(vec![(Ty::Point, 10001usize)], vec![(Ty::Point, 10001), (Ty::Point, 20001), (Ty::PolylineZ, 10001)]) {
         let mut ops: Vec<WOp> = (0..n).map(|i| WOp::W((i % 2) as u8)).collect();
@@ -309,6 +313,10 @@ fn run_unit(w: &Workload, ctx: &mut Ctx, tick: &dyn Fn()) {
     ctx.track_hashes = false;
     if w.ops.len() > 500 {
         run_unit_many(w, &pal, &run, ctx, tick);
+        return;
+    }
+    if w.big >= 100_000 {
+        run_unit_tail(w, &pal, &run, ctx, tick);
         return;
     }
     if w.big > 0 {
@@ -502,6 +510,64 @@ fn run_unit_many(w: &Workload, pal: &Palette, run: &Run, ctx: &mut Ctx, tick: &d
     ctx.bump("shp_crash_points", n_points);
 }
 
+/// Records of tens of megabytes (millions of write operations): the crash points of the last 8 operations of the
+/// .shp (cuts b in {0, 4}) and the complete file; index absent or complete.
+fn run_unit_tail(w: &Workload, pal: &Palette, run: &Run, ctx: &mut Ctx, tick: &dyn Fn()) {
+    let nk = run.shp_log.len();
+    let shx_list: Vec<(Vec<u8>, usize)> = vec![(image_at(&run.shx_log, run.shx_log.len(), 0), run.shx_log.len())];
+    let mut img = image_at(&run.shp_log, nk.saturating_sub(8), 0);
+    let mut n_pairs = 0u64;
+    for k in nk.saturating_sub(8)..=nk {
+        let wlen = match run.shp_log.get(k) {
+            Some(Op::Write { bytes, .. }) => bytes.len(),
+            _ => 0,
+        };
+        for b in [0usize, 4] {
+            if b > 0 && b >= wlen {
+                continue;
+            }
+            let mut cut = img.clone();
+            if b > 0 {
+                if let Some(Op::Write { pos, bytes, .. }) = run.shp_log.get(k) {
+                    let pos = *pos as usize;
+                    if cut.len() < pos + b {
+                        cut.resize(pos + b, 0);
+                    }
+                    cut[pos..pos + b].copy_from_slice(&bytes[..b]);
+                }
+            }
+            let req = run.finalized.iter().filter(|(n_ops, _)| *n_ops <= k).map(|(_, n)| *n).max().unwrap_or(0);
+            for shx in std::iter::once(None).chain(shx_list.iter().map(Some)) {
+                let case = || Case { w: w.clone(), shp_cut: (k, b), shx_cut: shx.map(|x| (x.1, 0)) }.to_json();
+                n_pairs += 1;
+                match catch(|| read_image(&cut, shx.map(|x| &x.0[..]), run.written.len())) {
+                    Ok(seen) => {
+                        ctx.evals += 1;
+                        ctx.lib_calls += 2 + seen.items.len() as u64 + seen.nth.len() as u64;
+                        for (sig, d) in judge(pal, &run.written, req, shx.is_some(), &seen) {
+                            ctx.violation(format!("{}:huge-record:{}", w.ty.name(), sig), case, || d);
+                        }
+                    }
+                    Err(p) => {
+                        ctx.evals += 1;
+                        ctx.violation(format!("{}:huge-record:{}", w.ty.name(), p.sig()), case, || format!("{}:{} {}", p.file, p.line, p.msg));
+                    }
+                }
+            }
+            tick();
+        }
+        if let Some(Op::Write { pos, bytes, .. }) = run.shp_log.get(k) {
+            let pos = *pos as usize;
+            if img.len() < pos + bytes.len() {
+                img.resize(pos + bytes.len(), 0);
+            }
+            img[pos..pos + bytes.len()].copy_from_slice(bytes);
+        }
+    }
+    ctx.structural_distinct += n_pairs;
+    ctx.structural_nontrivial += n_pairs;
+}
+
 /// Large workloads: tens of thousands of .shp crash points of tens of KiB each; images are
 /// evaluated as they are produced (no deduplication, nothing stored), paired with the index as
 /// persisted after each complete operation.
@@ -588,11 +654,59 @@ fn selftest() -> (u64, u64) {
     (inj, det)
 }
 
+/// C11 over faulted runs: what is persisted when the writer has been dropped after a destination failure (and at
+/// every finalize that succeeded on the way) shows a reader nothing but a prefix of the shapes whose write
+/// returned Ok, and everything a completed finalize covers.
+pub fn judge_frun(pal: &Palette, case: &crate::frun::FCase, run: &crate::frun::FRun) -> Vec<(String, String)> {
+    let mut out = vec![];
+    if !case.with_shx {
+        return out;
+    }
+    // images: after each successful finalize, and the final state
+    // (both files as they are at the same moment: a crash combined with an earlier failed write is judged at call
+    // boundaries only; the independent prefixes of the two files are the fault-free workloads' business)
+    let mut points: Vec<(usize, usize, usize)> = run.finalized.iter().zip(&run.finalized_shx).map(|((k, n), kx)| (*k, *n, *kx)).collect();
+    if !run.drop_undisturbed(case.ops.len()) {
+        points.push((run.shp_log.len(), run.finalized.last().map(|x| x.1).unwrap_or(0), run.shx_log.len()));
+    }
+    points.dedup();
+    for (k, req, kx) in points {
+        let shp = image_at(&run.shp_log, k, 0);
+        let shx = image_at(&run.shx_log, kx, 0);
+        for with_index in [false, true] {
+            match catch(|| read_image(&shp, if with_index { Some(&shx[..]) } else { None }, run.accepted.len())) {
+                Ok(seen) => {
+                    for (sig, d) in judge(pal, &run.accepted, req, with_index, &seen) {
+                        out.push((format!("fault-run:{}:{}", case.ty.name(), sig), format!("faults {:?}{} fired in calls {:?}; results {:?}; .shp as persisted after {} operations: {}", case.faults, if case.zero_writes { " (writes accept 0 bytes)" } else { "" }, run.fired, run.results, k, d)));
+                    }
+                }
+                Err(p) => out.push((format!("fault-run:{}:{}", case.ty.name(), p.sig()), p.msg)),
+            }
+        }
+    }
+    out
+}
+
 pub fn check(tier: Tier) -> i32 {
     let started = Instant::now();
     let ws = workloads(tier);
     let deadline = Some(started + std::time::Duration::from_secs(tier.pick(50, 1700)));
     let (agg, capped) = par_blocks(ws.len(), deadline, |b, ctx, tick| run_unit(&ws[b], ctx, tick));
+    let (mut agg, mut capped) = (agg, capped);
+    {
+        let types: Vec<Ty> = tier.pick(vec![Ty::Point, Ty::Multipoint, Ty::Polyline, Ty::PolygonM, Ty::MultipointZ, Ty::Multipatch], ALL13.to_vec());
+        let hists = crate::frun::histories(&[WOp::W(0), WOp::W(1), WOp::F], 3);
+        let (a, c) = crate::frun::sweep(&types, |_| None, &[true], &hists, tier == Tier::Thorough, deadline, |pal, case, run, ctx| {
+            let mut oh = Fnv::new();
+            oh.bytes(&run.shp);
+            ctx.case_done(case.hash(), true, oh.finish());
+            for (sig, d) in judge_frun(pal, case, run) {
+                ctx.violation(sig, || case.to_json(), || d);
+            }
+        });
+        agg.absorb(a);
+        capped |= c;
+    }
     let st = selftest();
     finish(
         RunInfo {
@@ -600,7 +714,7 @@ pub fn check(tier: Tier) -> i32 {
             tier,
             level: "fault_enumeration",
             engine: "writer histories executed on the real ShapeWriter over logging devices; every crash image (operation prefix x torn write) of .shp and, independently, .shx fed to the real ShapeReader",
-            rule: "workloads = histories over {Wa, Wb, F} with <= 3 writes and <= 2 finalizes at any placement (finalize before the first write included), ending in drop, plus a workload of 10001 writes, a finalize and one more write (thorough: also 20001, and PolylineZ) evaluated at the crash points in windows of +-1 record around the record counts 1000, 1024, 4096, 8192 and every multiple of 10000, around the finalize and in the last three calls and drop (cuts b in {0,1,4,7}; index absent, complete, or as persisted at the operation boundaries of the same window), plus three workloads whose records have a part of 1000 / 1500 / 2000 points (for these: every operation boundary and cuts after 1, 4, 7 bytes of every write on the .shp, the .shx as persisted after each complete operation); crash points = for each device every k (operations applied) and every b (bytes of operation k+1 applied, 0 < b < len), images deduplicated by content (so cases are distinct by construction and are counted structurally, not hashed); evaluated: every .shp image without index, and every (.shp image, .shx image) pair with index; non-trivial = some operation applied or a torn write",
+            rule: "workloads = histories over {Wa, Wb, F} with <= 3 writes and <= 2 finalizes at any placement (finalize before the first write included), ending in drop, plus a workload of 10001 writes, a finalize and one more write (thorough: also 20001, and PolylineZ) evaluated at the crash points in windows of +-1 record around the record counts 1000, 1024, 4096, 8192 and every multiple of 10000, around the finalize and in the last three calls and drop (cuts b in {0,1,4,7}; index absent, complete, or as persisted at the operation boundaries of the same window), plus a workload whose middle record has a part of 1 100 001 points (> 16 MiB; thorough also 2 200 001 MultipointZ points, 70 MB) evaluated at the crash points of the last 8 .shp operations and complete, plus every history of <= 3 operations under every single destination fault (an error, or a write accepting 0 bytes; thorough: every pair): the .shp as persisted after each successful finalize and after drop, read with and without the index; plus three workloads whose records have a part of 1000 / 1500 / 2000 points (for these: every operation boundary and cuts after 1, 4, 7 bytes of every write on the .shp, the .shx as persisted after each complete operation); crash points = for each device every k (operations applied) and every b (bytes of operation k+1 applied, 0 < b < len), images deduplicated by content (so cases are distinct by construction and are counted structurally, not hashed); evaluated: every .shp image without index, and every (.shp image, .shx image) pair with index; non-trivial = some operation applied or a torn write",
             bounds: json!({"workloads": ws.len(), "types": tier.pick(6, 13), "max_writes": 3, "max_finalizes": 2, "max_len": tier.pick(4, 5)}),
             exhaustive: true,
             assumptions: vec![
@@ -619,6 +733,13 @@ pub fn check(tier: Tier) -> i32 {
 }
 
 pub fn replay(v: &Value) -> Vec<(String, String)> {
+    if let Some(fc) = crate::frun::FCase::from_json(v) {
+        let pal = fc.palette();
+        return match catch(|| crate::frun::run(&pal, &fc)) {
+            Ok(r) => judge_frun(&pal, &fc, &r),
+            Err(p) => vec![(format!("fault-run:{}:{}", fc.ty.name(), p.sig()), p.msg)],
+        };
+    }
     let case = match Case::from_json(v) {
         Some(c) => c,
         None => return vec![("bad-replay-file".into(), "cannot parse case".into())],
